@@ -483,7 +483,9 @@ def driver_obligations(P):
                 return Unknown("map over %r" % (tasks,))
             out = []
             for t in tasks.items:
-                if isinstance(t, GenList):
+                if isinstance(t, GenList) and isinstance(t.elem, Tup) and t.elem.kind == "group":
+                    out.append(GenList(Tup([I.call(f, [e], {}, node, {}) for e in t.elem.items], "group"), t.ivar, t.rng))
+                elif isinstance(t, GenList):
                     out.append(GenList(I.call(f, [t.elem], {}, node, {}), t.ivar, t.rng))
                 else:
                     out.append(I.call(f, [t], {}, node, {}))
